@@ -905,10 +905,69 @@ def summarise(prog: Program, fi: FuncInfo) -> Summary:
         w.returns.append(w.emit("return", w.expr(fi.node.body), fi.node))
     else:
         w.block(fi.node.body)
-    events = fuse_events(w.events)
+    events = alias_fields(fuse_events(w.events))
     s = Summary(fi, events, [e for e in events if e.kind == "return"], w.env, w.locals, w.unknowns)
     fi._summary = s  # type: ignore[attr-defined]
-    return s
+    try:
+        s2 = cold_cache(prog, fi, s)
+    except RecursionError:
+        s2 = s
+    if s2 is not s:
+        fi._summary = s2  # type: ignore[attr-defined]
+    return fi._summary  # type: ignore[attr-defined]
+
+
+def alias_fields(events: List[Event]) -> List[Event]:
+    """A local that is bound exactly once, unconditionally and outside loops, to an attribute path
+    (`queue = self.next_steps`) whose attributes are not re-assigned in the function denotes the same
+    object as the path for the whole function: it is replaced by the path (mutating the object through
+    either name is the same thing)."""
+    binds: Dict[Term, List[Event]] = {}
+    for e in events:
+        if e.kind == "bind":
+            binds.setdefault(e.term[1], []).append(e)
+    stored_attrs = set()
+    for e in events:
+        if e.kind in ("store", "del"):
+            t = e.term[1]
+            if t[0] == "attr":
+                stored_attrs.add(t[2])
+    mapping: Dict[Term, Term] = {}
+    for v, bs in binds.items():
+        if len(bs) != 1 or bs[0].guards and any(True for _ in ()):
+            continue
+        b = bs[0]
+        val = T.strip(b.term[2])
+        if b.iters or val[0] != "attr":
+            continue
+        path, ok = val, True
+        while path[0] == "attr":
+            if path[2] in stored_attrs:
+                ok = False
+            path = path[1]
+        if not ok or path[0] != "var" or path in binds:
+            continue
+        # the local must really be used as a name somewhere (otherwise nothing to do)
+        mapping[v] = val
+    if not mapping:
+        return events
+    used = False
+    for e in events:
+        if e.kind != "bind" or e.term[1] not in mapping:
+            if any(T.contains((e.term, e.guards, e.iters), v) for v in mapping):
+                used = True
+                break
+    if not used:
+        return events
+    out: List[Event] = []
+    for e in events:
+        if e.kind == "bind" and e.term[1] in mapping:
+            out.append(e)
+            continue
+        out.append(Event(len(out), e.kind, T.replace(e.term, mapping), T.replace(e.raw, mapping), e.node, e.stmt, T.replace(e.guards, mapping), T.replace(e.iters, mapping), e.tries, e.awaited, e.extra))
+    for i, e in enumerate(out):
+        e.idx = i
+    return out
 
 
 def fuse_events(events: List[Event]) -> List[Event]:
@@ -1053,10 +1112,19 @@ def is_new_helper(fi: FuncInfo) -> bool:
 def spliceable(prog: Program, fi: FuncInfo, callee: FuncInfo) -> bool:
     if isinstance(callee.node, ast.Lambda) or callee.qualname == fi.qualname:
         return False
+    if fi.cls is not None and callee.cls is not None and callee.cls is not fi.cls and callee.name == fi.name and not is_new_helper(callee):
+        # delegation to the overridden method of a base class (`super().send(...)`): small ones are read in place
+        return len(summarise(prog, callee).events) <= 12
     if is_new_helper(callee):
         # helpers introduced after the pinned tree: sync or async (when awaited at the call), functions or
         # methods, of any module of the package
-        return len(summarise(prog, callee).events) <= 200 and not any(e.kind == "yield" for e in summarise(prog, callee).events)
+        cs = summarise(prog, callee)
+        if any(e.kind == "yield" for e in cs.events):
+            # a generator helper is read as the collection of what it yields, provided that producing the
+            # values has no effects of its own (then it does not matter when the body runs)
+            return not callee.is_async and len(cs.events) <= 200 and not any(e.kind in ("store", "await", "del", "raise") for e in cs.events) \
+                and all(r.term == T.NONE for r in cs.returns)
+        return len(cs.events) <= 200
     if callee.is_async or callee.cls is not None or callee.name in SPLICE_ATOMIC:
         return False
     # nested helpers of this function, or small module-level helpers of the same module
@@ -1073,12 +1141,34 @@ def _resolve_callee(prog: Program, fi: FuncInfo, e: Event) -> Tuple[Optional[Fun
     f = e.term[1]
     if f[0] == "glob":
         return prog.functions.get(f[1]), None
+    if f[0] == "attr" and fi.cls is not None and fi.params and f[1] == ("call", ("glob", "super"), (), ()):
+        # super().m(...): the method of the nearest base class, called on the same object
+        for base in prog.mro(fi.cls)[1:]:
+            if f[2] in base.methods:
+                m = base.methods[f[2]]
+                if not any(ast.unparse(d) in ("staticmethod", "classmethod", "property") for d in m.node.decorator_list):
+                    return m, T.var(fi.params[0])
+                break
+        return None, None
     if f[0] == "attr" and fi.cls is not None and fi.params and f[1] == T.var(fi.params[0]):
         m = prog.find_method(fi.cls.qualname, f[2])
         if m is not None and not any(ast.unparse(d) in ("staticmethod", "classmethod", "property") for d in m.node.decorator_list):
             return m, f[1]
         if m is not None and any(ast.unparse(d) == "staticmethod" for d in m.node.decorator_list):
             return m, None
+    if f[0] == "attr" and f[1][0] == "var":
+        # a method that a later change added to a package class, called on a parameter annotated with that class
+        a = fi.node.args
+        for prm in a.posonlyargs + a.args + a.kwonlyargs:
+            if prm.arg == f[1][1] and prm.annotation is not None:
+                txt = prm.annotation.value if isinstance(prm.annotation, ast.Constant) and isinstance(prm.annotation.value, str) else ast.unparse(prm.annotation)
+                txt = txt.replace("Optional[", "").rstrip("]").strip()
+                q = prog.resolve_name(fi.module, txt)
+                ci = prog.classes.get(q)
+                if ci is not None:
+                    m = prog.find_method(q, f[2])
+                    if m is not None and is_new_helper(m) and not any(ast.unparse(d) in ("staticmethod", "classmethod", "property") for d in m.node.decorator_list):
+                        return m, f[1]
     return None, None
 
 
@@ -1124,6 +1214,163 @@ def _bind_params(callee: FuncInfo, recv: Optional[Term], args: Tuple[Term, ...],
 _SPLICING: Set[str] = set()
 
 
+# ----------------------------------------------------------------------------- validated memoisation
+def _field_writers(prog: Program, field: str) -> List[Tuple[FuncInfo, Event]]:
+    cache = getattr(prog, "_field_writers", None)
+    if cache is None:
+        cache = {}
+        for f2 in prog.all_functions():
+            for e in summarise(prog, f2).events:
+                if e.kind in ("store", "del"):
+                    t = e.term[1]
+                    while t[0] == "idx":
+                        t = t[1]
+                    if t[0] == "attr":
+                        cache.setdefault(t[2], []).append((f2, e))
+                elif e.kind == "call" and e.term[1][0] == "attr" and e.term[1][2] in _MUTATORS and e.term[1][1][0] == "attr":
+                    cache.setdefault(e.term[1][1][2], []).append((f2, e))
+        prog._field_writers = cache  # type: ignore[attr-defined]
+    return cache.get(field, [])
+
+
+def _initial_value(prog: Program, fi: FuncInfo, field: str) -> Optional[Term]:
+    """None / {} if the field starts out as that (class-level default or constructor)."""
+    ci = fi.cls
+    if ci is None:
+        return None
+    for c in prog.mro(ci):
+        for st in c.node.body:
+            tgt = st.target if isinstance(st, ast.AnnAssign) else (st.targets[0] if isinstance(st, ast.Assign) and len(st.targets) == 1 else None)
+            val = getattr(st, "value", None)
+            if isinstance(tgt, ast.Name) and tgt.id == field and val is not None:
+                if isinstance(val, ast.Constant) and val.value is None:
+                    return T.NONE
+                if isinstance(val, ast.Dict) and not val.keys:
+                    return ("dict", ())
+        init = c.methods.get("__init__")
+        if init is not None:
+            for e in summarise(prog, init).of_kind("store"):
+                if e.term[1] == ("attr", T.var(init.params[0]), field):
+                    v = T.strip(e.term[2])
+                    if v == T.NONE or v == ("dict", ()):
+                        return v
+                    return None
+    return None
+
+
+def cold_cache(prog: Program, fi: FuncInfo, s: Summary) -> Summary:
+    """A function that remembers its result in a field of its object (`if self._c is None: self._c = V`,
+    a (key, value) pair, a dict keyed by the arguments) computes V: provided that the field is written
+    nowhere else and starts out empty, that every hit test compares the remembered key with plain
+    parameters, and that V reads nothing but those parameters and fields that are never re-assigned after
+    construction, the summary is rewritten to the cold-cache run (what every call returns).  A cache
+    whose key is a *derived* value, or whose value depends on anything else, is left as it is."""
+    if fi.cls is None or not fi.params or fi.name == "__init__":
+        return s
+    me = T.var(fi.params[0])
+    cands: Dict[str, Term] = {}
+    for e in s.of_kind("store"):
+        t = e.term[1]
+        base = t[1] if t[0] == "idx" else t
+        if base[0] == "attr" and base[1] == me:
+            cands.setdefault(base[2], T.NONE)
+    if not cands:
+        return s
+    subst: Dict[Term, Term] = {}
+    for f in list(cands):
+        init = _initial_value(prog, fi, f)
+        others = [w for w in _field_writers(prog, f) if w[0].qualname != fi.qualname and w[0].name != "__init__"]
+        if init is None or others:
+            del cands[f]
+            continue
+        subst[("attr", me, f)] = init
+    if not subst:
+        return s
+    from . import constfold
+    params = {T.var(p) for p in fi.params[1:]}
+
+    def immutable(fld: str) -> bool:
+        return not [w for w in _field_writers(prog, fld) if w[0].name != "__init__"]
+
+    # validation: hit tests compare with plain parameters only; the remembered value reads parameters and
+    # immutable fields only
+    for e in s.events:
+        for part in [e.term] + [g[1] for g in e.guards]:
+            for x in T.subterms((part,)):
+                if x[0] == "cmp" and any(T.contains((y,), k) for y in (x[2], x[3]) for k in subst):
+                    other = [y for y in (x[2], x[3]) if not any(T.contains((y,), k) for k in subst)]
+                    if other and not (other[0] in params or other[0] == T.NONE or other[0][0] == "const" or (other[0][0] == "tuple" and all(z in params for z in other[0][1]))):
+                        return s
+    forwarded: Dict[Term, Term] = {}
+    out: List[Event] = []
+    consts: Dict[Term, Term] = {}          # opaque locals that currently hold a constant (the empty cache read into a local)
+    decided: Dict[Term, bool] = {}         # tests decided at the moment they were made
+    for e in s.events:
+        def inst(t):
+            t = T.replace(T.replace(t, forwarded), subst)
+            return T.replace(t, consts) if consts else t
+        term = inst(e.term) if e.kind not in ("store", "bind") else (e.term[0], e.term[1], inst(e.term[2]))
+        if e.kind == "test":
+            v = constfold.decide(inst(e.term), {})
+            if v is not None:
+                decided[T.strip(e.term)] = v
+            else:
+                decided.pop(T.strip(e.term), None)
+        guards = []
+        dead = False
+        for g in e.guards:
+            key = T.strip(g[1])
+            v = decided.get(key)
+            if v is None and key[0] == "not" and key[1] in decided:
+                v = not decided[key[1]]
+            if v is None:
+                v = constfold.decide(T.replace(T.replace(g[1], forwarded), subst), {})
+            if v is None:
+                guards.append((g[0], T.replace(T.replace(g[1], forwarded), subst), g[2]))
+            elif v != g[2]:
+                dead = True
+                break
+        if dead:
+            continue
+        if e.kind == "bind" and e.term[1][0] == "var":
+            v = T.strip(term[2])
+            if v == T.NONE or v == ("dict", ()):
+                consts[e.term[1]] = v
+            else:
+                consts.pop(e.term[1], None)
+        if e.kind == "store":
+            t = e.term[1]
+            base = t[1] if t[0] == "idx" else t
+            if base[0] == "attr" and base[1] == me and base[2] in cands:
+                val = term[2]
+                for fv in T.subterms((val,)):
+                    if fv[0] == "var" and fv not in params and fv != me and fv[1] in s.locals:
+                        pass
+                    if fv[0] == "attr" and fv[1] == me and fv[2] not in cands and not immutable(fv[2]) and not prog.find_method(fi.cls.qualname, fv[2]):
+                        return s
+                forwarded[e.term[1]] = val          # later reads of the cache see what was just stored
+                continue                            # the cache write itself is not a fact of the function
+        try:
+            from .boolfn import resolve_phi
+            term = resolve_phi(term, {}, lambda x: constfold.decide(x, {}))
+        except Exception:  # noqa: BLE001
+            pass
+        term = constfold.fold(term)
+        out.append(Event(len(out), e.kind, T.strip(term), term, e.node, e.stmt, tuple(guards), e.iters, e.tries, e.awaited, e.extra))
+    # the local that held the (empty) cache and is re-bound to the computed value: one definition
+    drop = set()
+    for i, e in enumerate(out):
+        if e.kind == "bind" and T.strip(e.term[2]) in (T.NONE, ("dict", ())) and not e.guards:
+            later = [x for x in out[i + 1:] if x.kind == "bind" and x.term[1] == e.term[1]]
+            if later and not later[0].guards and later[0].iters == e.iters:
+                drop.add(i)
+    if drop:
+        out = [e for i, e in enumerate(out) if i not in drop]
+        for i, e in enumerate(out):
+            e.idx = i
+    return Summary(s.func, out, [e for e in out if e.kind == "return"], s.env, s.locals, s.unknowns)
+
+
 def spliced(prog: Program, fi: FuncInfo) -> Summary:
     """The function's summary with the bodies of helpers spliced in at their call sites (small
     synchronous nested / same-module helpers of the pinned tree, and every helper that a later change
@@ -1148,9 +1395,12 @@ def spliced(prog: Program, fi: FuncInfo) -> Summary:
 
         changed = False
         skip_await_of: Set[Term] = set()
+        survived: Tuple[Term, ...] = ()      # "the spliced helper did not raise": holds for everything after its call
         for e in base.events:
             term = T.replace(e.term, subst) if subst else e.term
             guards = T.replace(e.guards, subst) if subst else e.guards
+            if survived:
+                guards = tuple(guards) + tuple(g for g in survived if g not in guards)
             iters = T.replace(e.iters, subst) if subst else e.iters
             if e.kind == "await" and e.term in skip_await_of:
                 continue              # the await of a spliced coroutine helper: its own awaits stand here now
@@ -1173,7 +1423,18 @@ def spliced(prog: Program, fi: FuncInfo) -> Summary:
                             continue
                         add(ce.kind, T.replace(ce.term, full), ce.node, e.stmt, guards + T.replace(ce.guards, full), iters + T.replace(ce.iters, full),
                             e.tries + ce.tries, ce.awaited, dict(ce.extra, via=callee.qualname), raw=T.replace(ce.raw, full))
-                    rv = fold_returns(cs)
+                    # an early `raise` of the helper ends the caller, too: what follows the call runs under its negation
+                    if not e.tries:
+                        for ce in cs.events:
+                            if ce.kind == "raise" and not ce.iters and ce.guards and not any(r == "body" for _, r in ce.tries):
+                                gts = tuple(T.guard_term(g) for g in T.replace(ce.guards, full))
+                                cond = gts[0] if len(gts) == 1 else ("and", gts)
+                                survived = survived + (("g", cond, False),)
+                    ys = [ce for ce in cs.events if ce.kind == "yield"]
+                    if ys:
+                        rv = ("bag", tuple(("elem", ce.term, tuple(ce.guards), tuple(ce.iters)) for ce in ys), "gen")
+                    else:
+                        rv = fold_returns(cs)
                     val = T.replace(rv, full) if rv is not None else T.NONE
                     subst[e.term] = val
                     if callee.is_async:
@@ -1182,6 +1443,25 @@ def spliced(prog: Program, fi: FuncInfo) -> Summary:
                     changed = True
                     continue
             add(e.kind, term, e.node, e.stmt, guards, iters, e.tries, e.awaited, e.extra, raw=(T.replace(e.raw, subst) if subst else e.raw))
+        # `super().<property>`: the value of the base class's property on the same object
+        if fi.cls is not None and fi.params:
+            SUP = ("call", ("glob", "super"), (), ())
+            props: Dict[Term, Term] = {}
+            for e in out:
+                for x in T.subterms((e.term, e.guards)):
+                    if x[0] == "attr" and x[1] == SUP and x not in props:
+                        for b in prog.mro(fi.cls)[1:]:
+                            pm = b.methods.get(x[2])
+                            if pm is not None:
+                                if any(ast.unparse(d) == "property" for d in pm.node.decorator_list):
+                                    ps = summarise(prog, pm)
+                                    rv = fold_returns(ps)
+                                    if rv is not None and len(ps.events) <= 4:
+                                        props[x] = T.replace(T.strip(rv), {T.var(pm.params[0]): T.var(fi.params[0])})
+                                break
+            if props:
+                out = [Event(e.idx, e.kind, T.replace(e.term, props), T.replace(e.raw, props), e.node, e.stmt, T.replace(e.guards, props), T.replace(e.iters, props), e.tries, e.awaited, e.extra) for e in out]
+                changed = True
         if not changed:
             fi._spliced = base  # type: ignore[attr-defined]
             return base
